@@ -28,9 +28,13 @@ pub enum Site {
     Prepare,
     InitDb,
     UseStmt,
+    /// the shim reports the error (query / finish_error after k rows) and then gives the
+    /// connection up by returning Err from the callback
+    QueryThenFatal,
+    FinishErrorThenFatal(usize),
 }
 
-pub const SITES: [Site; 15] = [
+pub const SITES: [Site; 17] = [
     Site::QueryFirst,
     Site::AfterCompleteOne,
     Site::AfterFinishedSet,
@@ -46,6 +50,8 @@ pub const SITES: [Site; 15] = [
     Site::Prepare,
     Site::InitDb,
     Site::UseStmt,
+    Site::QueryThenFatal,
+    Site::FinishErrorThenFatal(1),
 ];
 
 #[derive(Clone, Debug, Serialize, Deserialize)]
@@ -133,10 +139,20 @@ fn conv_for(site: Site, kind: u16, msg: &[u8]) -> (Conversation, usize) {
         Site::Prepare => (vec![Cmd::Prepare { text: Blob::text("p") }], vec![Action::Prepare(PrepProg::Error { kind, msg: msg.to_vec() })], 0),
         Site::InitDb => (vec![Cmd::InitDb { name: Blob::text("db") }], vec![Action::Init(InitProg::Error { kind, msg: msg.to_vec() })], 0),
         Site::UseStmt => (vec![Cmd::Query { text: Blob::text("USE db") }], vec![Action::Init(InitProg::Error { kind, msg: msg.to_vec() })], 0),
+        Site::QueryThenFatal => (vec![q], vec![Action::Result(Program { steps: vec![err] })], 0),
+        Site::FinishErrorThenFatal(k) => (
+            vec![q],
+            vec![Action::Result(Program { steps: vec![Step::Set { cols: cols_t.clone(), rows: (0..k).map(row).collect(), end: SetEnd::FinishError { kind, msg: msg.to_vec() } }] })],
+            0,
+        ),
     };
     let mut cmds = cmds;
     cmds.push(Cmd::Ping);
-    (Conversation::new(cmds, actions), idx)
+    let mut conv = Conversation::new(cmds, actions);
+    if matches!(site, Site::QueryThenFatal | Site::FinishErrorThenFatal(_)) {
+        conv.then_fail = vec![Some(77)];
+    }
+    (conv, idx)
 }
 
 fn find_err(r: &Response) -> Option<&ErrPkt> {
@@ -170,10 +186,10 @@ impl Prop for C13 {
         "C13"
     }
     fn rule(&self) -> String {
-        format!("cases = (a) sweeps: a contiguous slice of the {} ErrorKind variants (list re-read from src/errorcodes.rs at build time) x one of 15 reporting sites (query error first; after complete_one; after a finished set; finish_error after 0/3 text rows and 0/2 binary rows, and with the last row still open (write_col without end_row) in both protocols; execute error; prepare error; COM_INIT_DB error; `USE` error) x one message (empty, ASCII, arbitrary bytes, 250-400 bytes, 65535/70000 bytes, containing '#', NUL, 0xFF); the quick tier enumerates every kind at a rotating site and every site; (b) table checks: ErrorKind::from(k as u16) == k for every variant, SQLSTATE is 5 bytes of [0-9A-Z], curated well-known (code, SQLSTATE) pairs, the (name, code) table extracted from the mysql crate, and a pinned snapshot of the whole SQLSTATE table (a change detector, stated as such). Oracle: the ERR packet decodes (own decoder + mysql_common::ErrPacket) to code = kind as u16, marker '#', state = kind.sqlstate(), identical message bytes. Non-trivial = a site other than 'query error first', or a non-ASCII/long message.", ERROR_KINDS.len())
+        format!("cases = (a) sweeps: a contiguous slice of the {} ErrorKind variants (list re-read from src/errorcodes.rs at build time) x one of 17 reporting sites (query error first; after complete_one; after a finished set; finish_error after 0/3 text rows and 0/2 binary rows, and with the last row still open (write_col without end_row) in both protocols; execute error; prepare error; COM_INIT_DB error; `USE` error; query error / finish_error after which the shim returns Err from the callback - the ERR must still have been handed to the transport) x one message (empty, ASCII, arbitrary bytes, 250-400 bytes, 65535/70000 bytes, containing '#', NUL, 0xFF); the quick tier enumerates every kind at a rotating site and every site; (b) table checks: ErrorKind::from(k as u16) == k for every variant, SQLSTATE is 5 bytes of [0-9A-Z], curated well-known (code, SQLSTATE) pairs, the (name, code) table extracted from the mysql crate, and a pinned snapshot of the whole SQLSTATE table (a change detector, stated as such). Oracle: the ERR packet decodes (own decoder + mysql_common::ErrPacket) to code = kind as u16, marker '#', state = kind.sqlstate(), identical message bytes. Non-trivial = a site other than 'query error first', or a non-ASCII/long message.", ERROR_KINDS.len())
     }
     fn exhaustive_note(&self, _tier: Tier) -> Option<String> {
-        Some("all ErrorKind variants (each at >= 1 site), all 15 sites; thorough: all variants x all sites".into())
+        Some("all ErrorKind variants (each at >= 1 site), all 17 sites; thorough: all variants x all sites".into())
     }
     fn assumptions(&self) -> Vec<String> {
         vec!["the pinned SQLSTATE snapshot (data/sqlstate_snapshot.json) equals the table of the pinned tree; it detects swapped/changed arms but would also flag a deliberate upstream correction".into()]
@@ -302,7 +318,9 @@ impl Prop for C13 {
                     let (conv, idx) = conv_for(*site, *code, &msg);
                     let o = run_with(&conv, None, false);
                     ex.count("error_reports_checked", 1);
-                    if !o.result.is_ok() {
+                    let fatal = matches!(site, Site::QueryThenFatal | Site::FinishErrorThenFatal(_));
+                    let result_ok = if fatal { matches!(o.result, RunResult::ErrTagged(77)) } else { o.result.is_ok() };
+                    if !result_ok {
                         ex.fail(
                             match &o.result {
                                 RunResult::Panic(p) => format!("c13-panic|{}", panic_signature(p)),
@@ -312,7 +330,9 @@ impl Prop for C13 {
                         );
                         return ex;
                     }
-                    let kinds: Vec<ReplyKind> = conv.cmds.iter().map(|sc| sc.cmd.reply_kind()).collect();
+                    // (when the shim gives up after reporting, the connection ends: the ERR must be among
+                    // the bytes handed to the transport; nothing after it is expected)
+                    let kinds: Vec<ReplyKind> = conv.cmds.iter().take(if fatal { idx + 1 } else { conv.cmds.len() }).map(|sc| sc.cmd.reply_kind()).collect();
                     let d = decode_output(&o.out, &kinds);
                     if let Some(p) = &d.problem {
                         ex.fail("c13-nonconformant", format!("{} at {:?}: client decoder rejects the output: {}", name, site, p));
